@@ -9,6 +9,7 @@ import CfVerif.Proofs.C15Angles
 import CfVerif.Proofs.C15Solver
 import CfVerif.Proofs.C15Ippe
 import CfVerif.Proofs.C15Quat
+import CfVerif.Proofs.C15Heap
 namespace CfVerif.C15
 open CfVerif
 
@@ -28,6 +29,12 @@ theorem gen_cart_return : Gen.C15.cartReturn = "v / np.linalg.norm(v)" := by dec
 theorem gen_pose_init : Gen.C15.poseInitArgs = ["self", "R_matrix", "t_vec"] ∧
     Gen.C15.poseInitAssigns = ["self._R_matrix = np.array(R_matrix)", "self._t_vec = np.array(t_vec)"] ∧
     Gen.C15.poseRotMatrixProp = "self._R_matrix" ∧ Gen.C15.poseTranslationProp = "self._t_vec" := by decide
+/-- the copy discipline the heap model rests on: the ONLY attribute stores of class Pose are the two `np.array(...)` copies
+in `__init__` and the rebinding `self._t_vec = self._t_vec * scale` in `scale`; no Pose method contains an augmented
+assignment, a subscript/slice store, an `out=` argument or a mutating call on its arrays -/
+theorem gen_pose_copy_discipline :
+    Gen.C15.poseAttrStores = ["__init__: self._R_matrix = np.array(R_matrix)", "__init__: self._t_vec = np.array(t_vec)",
+      "scale: self._t_vec = self._t_vec * scale"] ∧ Gen.C15.poseInPlaceWrites = [] := by decide
 theorem gen_pose_returns : Gen.C15.poseRtpReturn = "Pose(R_matrix=R, t_vec=t)" ∧
     Gen.C15.poseIrtpReturn = "Pose(R_matrix=R, t_vec=t)" := by decide
 theorem gen_pose_scipy : Gen.C15.poseFromRotVecReturn = "Pose(Rotation.from_rotvec(R_vec).as_matrix(), t_vec)" ∧
@@ -206,6 +213,57 @@ theorem inv_after_scale (P : Pose ℝ) (hP : P.IsRigid) (k : ℝ) (p : V3 ℝ) :
 theorem from_rot_vec_rigid (r t : V3 ℝ) :
     (Pose.fromRotVec r t).IsRigid ∧ M3.det (Pose.fromRotVec r t).R = 1 := ⟨fromRotVec_rigid r t, rotVecMatrix_det r⟩
 
+/-! ### Pose VALUES are independent of object sharing (heap / aliasing view, Model/C15: `Heap`)
+
+Events: the caller creates ndarrays and overwrites its own arrays in place; `Pose(R, t)` from any arrays — the caller's or
+another pose's `rot_matrix` / `translation`; `copy.copy(pose)` (shares both arrays); `scale`; both compositions; both point
+transforms.  All theorems are for every number type and every history. -/
+
+/-- every history from the empty heap keeps the invariant "each Pose object refers to arrays that only poses own" -/
+theorem heap_invariant {α : Type} [Add α] [Sub α] [Mul α] (ops : List (HOp α)) (h : Heap α)
+    (hr : (Heap.empty : Heap α).run ops = .ok h) : h.WF := run_wf Heap.empty_wf hr
+
+/-- an operation on one Pose never changes the observable value of another: after ANY construction/sharing history `ops1`,
+object `q` keeps its value through ANY further history `ops2` that does not call `scale` on `q` itself — whatever is
+scaled (including shallow copies of `q` and poses built from `q.rot_matrix`/`q.translation` or from the same ndarrays as
+`q`), composed, transformed, or overwritten by the caller (including the arrays `q` was constructed from) -/
+theorem pose_value_independent {α : Type} [Add α] [Sub α] [Mul α] (ops1 ops2 : List (HOp α)) (h1 h2 : Heap α)
+    (hr1 : (Heap.empty : Heap α).run ops1 = .ok h1) (hr2 : h1.run ops2 = .ok h2)
+    (q : Nat) (hq : q < h1.objs.length) (hn : ∀ op ∈ ops2, ¬ op.scales q) : h2.deref q = h1.deref q :=
+  run_deref_frame (run_wf Heap.empty_wf hr1) hr2 hq hn
+
+/-- ... nor of the caller's arrays: through any history a cell changes only by the caller's own write to that cell; and
+the arrays a Pose holds are never written at all -/
+theorem caller_arrays_untouched {α : Type} [Add α] [Sub α] [Mul α] (ops : List (HOp α)) (h h' : Heap α)
+    (hr : h.run ops = .ok h') (i : Nat) (c : Owner × Arr α) (hc : h.cells[i]? = some c)
+    (hn : ∀ op ∈ ops, ¬ op.writesCell i) : h'.cells[i]? = some c := run_cells_frame hr hc hn
+
+theorem pose_arrays_never_written {α : Type} [Add α] [Sub α] [Mul α] (op : HOp α) (h h' : Heap α)
+    (hs : h.step op = .ok h') (i : Nat) (a : Arr α) (hc : h.cells[i]? = some (.pose, a)) :
+    h'.cells[i]? = some (.pose, a) := step_pose_cells hs hc
+
+/-- the events act on the object they target exactly as the value-level model says, so every law above applies to the
+values of the objects at every point of every history -/
+theorem heap_refines_values {α : Type} [Add α] [Sub α] [Mul α] (h h' : Heap α) (hw : h.WF) :
+    (∀ p k, h.step (.scale p k) = .ok h' → ∃ P, h.deref p = some P ∧ h'.deref p = some (P.scale k)) ∧
+    (∀ r t, h.step (.construct r t) = .ok h' →
+      ∃ m v, h.mat? r = some m ∧ h.vec? t = some v ∧ h'.deref h.objs.length = some ⟨m, v⟩) ∧
+    (∀ p q, h.step (.compose p q) = .ok h' →
+      ∃ P Q, h.deref p = some P ∧ h.deref q = some Q ∧ h'.deref h.objs.length = some (P.rotateTranslatePose Q)) ∧
+    (∀ p q, h.step (.invCompose p q) = .ok h' →
+      ∃ P Q, h.deref p = some P ∧ h.deref q = some Q ∧ h'.deref h.objs.length = some (P.invRotateTranslatePose Q)) ∧
+    (∀ p, h.step (.copyObj p) = .ok h' → h'.deref h.objs.length = h.deref p) :=
+  ⟨fun _ _ hs => step_scale_deref hw hs, fun _ _ hs => step_construct_deref hs, fun _ _ hs => step_compose_deref hs,
+   fun _ _ hs => step_invCompose_deref hs, fun _ hs => step_copy_deref hs⟩
+
+/-- why the copy discipline matters: with a constructor that keeps the caller's arrays and an in-place `scale`, two poses
+built from the same ndarrays alias — scaling pose 0 changes the value of the untouched pose 1 -/
+theorem aliasing_counterexample :
+    let h0 : Heap Int := ⟨[(.caller, .mat ⟨⟨1, 0, 0⟩, ⟨0, 1, 0⟩, ⟨0, 0, 1⟩⟩), (.caller, .vec ⟨1, 2, 3⟩)], []⟩
+    let h1 := (h0.constructNoCopy 0 1).constructNoCopy 0 1
+    let h2 := h1.scaleInPlace 0 2
+    (h1.deref 1).map (·.t.x) = some 1 ∧ (h2.deref 1).map (·.t.x) = some 2 := by decide
+
 /-! ### Views of one rotation (PARTIAL: about the specification of the scipy conversions, see docs/C15.md)
 
 `Pose.from_rot_vec` / `Pose.from_quat` / `rot_vec` / `rot_quat` delegate to scipy's `Rotation`.  The model contains the
@@ -347,6 +405,11 @@ example : |(0.3 : ℝ) + 0.5| < Real.pi ∧ |(0.5 : ℝ) - 0.3| < Real.pi := by
 example : (⟨⟨⟨1, 0, 0⟩, ⟨0, -1, 0⟩, ⟨0, 0, -1⟩⟩, ⟨1, 2, 3⟩⟩ : Pose ℝ).IsRigid := by
   unfold Pose.IsRigid M3.IsOrthogonal
   ext <;> simp [M3.mul, M3.transpose, M3.one, M3.col0, M3.col1, M3.col2, V3.dot]
+/-- a sharing history that runs: two poses from the same ndarrays, a shallow copy, scale of one, a composition -/
+example : ((Heap.empty : Heap Int).run [.newArr (.mat ⟨⟨1, 0, 0⟩, ⟨0, 1, 0⟩, ⟨0, 0, 1⟩⟩), .newArr (.vec ⟨1, 2, 3⟩),
+    .construct 0 1, .construct 0 1, .copyObj 0, .scale 0 2, .callerWrite 1 (.vec ⟨9, 9, 9⟩), .compose 0 1]).toOption.map
+      (fun h => ((h.deref 0).map (·.t.x), (h.deref 1).map (·.t.x), (h.deref 2).map (·.t.x), (h.deref 3).map (·.t.x))) =
+    some (some 2, some 1, some 1, some 3) := by decide
 example : 0 < (⟨1, -2, 0, 2⟩ : Quat ℝ).normSq := by norm_num [Quat.normSq]
 example : (0 : ℝ) < (⟨3 / 5, 0, 4 / 5⟩ : V3 ℝ).x ∧ V3.dot (⟨3 / 5, 0, 4 / 5⟩ : V3 ℝ) ⟨3 / 5, 0, 4 / 5⟩ = 1 := by
   constructor <;> norm_num [V3.dot]
